@@ -53,6 +53,8 @@ pub fn all_scenarios() -> Vec<(&'static str, &'static str, &'static str)> {
         ("tcpstream", "random", "C14"),
         ("tcpstream", "sweep", "C14"),
     ]
+    // ("tcpstream", "lifetime") is deterministic by construction but costs seconds per run: it is
+    // left out of the determinism self-test's sample
 }
 
 const A_MONO: &str = "instants passed to one agent never decrease from call to call";
@@ -133,8 +135,8 @@ pub fn plan(prop: &str, thorough: bool) -> Option<Plan> {
         ),
         "C14" => codec_plan(
             "exploration",
-            vec![b("tcpstream", "random", 800_000, 12_000_000, thorough), b("tcpstream", "sweep", 15_000, 200_000, thorough)],
-            "random profile: each evaluation is one stream of 1..6 frames (lengths 0..3, around 255/256, up to 65535; payloads that look like length prefixes) cut into segments (1-byte, all at once, 1..3 bytes, random) with push/pull interleavings (pull before data, drain after each push, random pulls, single pull per push, drain only at the end, repeated pulls on an incomplete frame) and an optional connection cut, every pull compared with the frame model; sweep profile: for each drawn stream of <= 3 frames and <= 12 bytes ALL 2^(n-1) segmentations x {drain after each push, drain at end} (evaluations counts each pattern); non-trivial = >= 2 segments or >= 2 frames; distinct = distinct event-log hash / distinct swept stream",
+            vec![b("tcpstream", "random", 800_000, 12_000_000, thorough), b("tcpstream", "sweep", 15_000, 200_000, thorough), b("tcpstream", "lifetime", 1, 8, thorough)],
+            "lifetime profile: one long-lived connection per evaluation, more than 2^32 bytes (65 600 maximum-size frames) through a single TcpBuffer with chunking variations along the way and densely around the 2^31/2^32 cumulative-byte marks; random profile: 1..3 connections one after the other (the previous buffer dropped, possibly with unread bytes), each one stream of 1..6 frames (lengths 0..3, around 255/256, up to 65535; payloads that look like length prefixes) cut into segments (1-byte, all at once, 1..3 bytes, random) with push/pull interleavings (pull before data, drain after each push, random pulls, single pull per push, drain only at the end, repeated pulls on an incomplete frame) and an optional connection cut, every pull compared with the frame model; sweep profile: for each drawn stream of <= 3 frames and <= 12 bytes ALL 2^(n-1) segmentations x {drain after each push, drain at end} (evaluations counts each pattern); non-trivial = >= 2 segments or >= 2 frames; distinct = distinct event-log hash / distinct swept stream",
             vec![],
         ),
         "C17" => codec_plan(
